@@ -3,7 +3,7 @@ package main
 // A tiny EVM assembler (no solc in this sandbox) and the generic "script"
 // contract used by the EVM drivers: its calldata is a list of instructions
 // (SSTORE, CALL with a nested script or precompile payload, LOG, BALANCE,
-// REVERT), so one deployed bytecode can play any frame of any call tree.
+// REVERT, SELFDESTRUCT), so one deployed bytecode can play any frame of any call tree.
 
 import (
 	"encoding/binary"
@@ -78,6 +78,7 @@ func assemble(src string) []byte {
 //   03                                         LOG0
 //   04                                         REVERT
 //   05 addr(32)                                BALANCE (loads the account into the StateDB cache)
+//   06 addr(32)                                SELFDESTRUCT to addr (halts the frame)
 //   anything else / end of calldata            STOP
 const scriptAsm = `
   0 0 MSTORE
@@ -90,6 +91,7 @@ loop:
   DUP1 3 EQ @do_log JUMPI
   DUP1 4 EQ @do_revert JUMPI
   DUP1 5 EQ @do_balance JUMPI
+  DUP1 6 EQ @do_selfdestruct JUMPI
 stop:
   STOP
 do_sstore:
@@ -111,6 +113,9 @@ do_balance:
   DUP1 1 ADD CALLDATALOAD BALANCE POP
   33 ADD 0 MSTORE
   @loop JUMP
+do_selfdestruct:
+  POP
+  DUP1 1 ADD CALLDATALOAD SELFDESTRUCT
 do_call:
   POP
   DUP1 66 ADD CALLDATALOAD
@@ -162,6 +167,11 @@ func encBalance(addr []byte) []byte {
 	w := make([]byte, 32)
 	copy(w[12:], addr)
 	return append([]byte{5}, w...)
+}
+func encSelfdestruct(addr []byte) []byte {
+	w := make([]byte, 32)
+	copy(w[12:], addr)
+	return append([]byte{6}, w...)
 }
 func encCall(flags byte, target []byte, value *big.Int, payload []byte) []byte {
 	w := make([]byte, 32)
